@@ -67,7 +67,9 @@ Inductive kstmt :=
 | KPrint (args : list (kind * kexpr)).                    (* println(args): each argument rendered by its kind *)
 
 Record kparam := { kpk : kind; kpn : ident; kpd : option Z }.        (* default: a literal payload *)
-Record kfunc := { kfname : ident; kfret : kind; kfmeth : bool; kfparams : list kparam; kfbody : list kstmt }.
+(* [kfvia]: how the function is called - 0 f(a), 1 as a method x.f(a) (parameter 0 is the receiver), 2 through a
+   function pointer p(a), 3 through a dereferenced function pointer; a printing matter, the semantics is the same *)
+Record kfunc := { kfname : ident; kfret : kind; kfvia : nat; kfparams : list kparam; kfbody : list kstmt }.
 Record kprog := { kpglob : list (ident * Z); kpfuncs : list kfunc; kpmain : list kstmt }.
 
 (* ---------- state ---------- *)
